@@ -314,6 +314,19 @@ def observe(ns, fn, kw, target='y'):
         return ('exn', type(ex).__name__)
     return ('ok', rows)
 
+def observe_ucomp(t, io):
+    """reporting.u_component(t, io): ('ok', [floats]) (one for real/real, else four) or ('exn', class)"""
+    from GTC import reporting as rp
+    try:
+        c = rp.u_component(t, io)
+    except Exception as ex:
+        import traceback
+        if any(fr.name == '__repr__' for fr in traceback.extract_tb(ex.__traceback__)):
+            return ('exn', 'raised-inside-repr')
+        return ('exn', type(ex).__name__)
+    if isinstance(c, (int, float)): return ('ok', [float(c)])
+    return ('ok', [float(v) for v in c])
+
 def dump_ureal(o):
     """bit-exact dump of the value and the three component vectors of an uncertain real"""
     return (float(o.x).hex(),) + tuple(tuple((n.uid, float(x).hex()) for n, x in zip(v._index, v._value))
@@ -346,7 +359,7 @@ def sequence_calls(rng, ycomplex):
         seq.append(('y', 'budget', {'trim': '0', 'key': 'None'})); seq.append(('y', 'components', {'trim': '0'}))
     return seq
 
-def case_term(m, calls, rng=None):
+def case_term(m, calls, rng=None, extra_targets=(), fixed_calls=None):
     """run the model's source and a SEQUENCE of report calls on the implementation: the option-grid calls on y, then
     (complex y) real reports of y.real, y.imag, magnitude(y), then y again.  Everything the model needs (targets,
     influences) is snapshotted BEFORE the first report; after every call all component vectors are dumped again and
@@ -365,6 +378,8 @@ def case_term(m, calls, rng=None):
         if ycomplex:
             tsnap['y.real'] = snap.yval(y.real); tsnap['y.imag'] = snap.yval(y.imag)
             if 'ymag' in ns: tsnap['ymag2'] = snap.yval(ns['ymag'])
+        for tn in extra_targets:
+            tsnap[tn] = snap.yval(ns[tn])
         # the declared numbers themselves: their shape is checked by Budget.decl_ok, and two of them are reported on
         decls = []
         for v in m['reals'] + m['cplx'] + m['consts']:
@@ -378,6 +393,19 @@ def case_term(m, calls, rng=None):
             tsnap[v] = snap.yval(ns[v])
             extra.append((v, 'budget', {'trim': '0'})); extra.append((v, rng.choice(['budget', 'components']), dict(rng.choice(SEQ_KW))))
         allcalls = [('y', fn, kw) for fn, kw in calls] + [c for c in sequence_calls(rng, ycomplex) if c[0] in tsnap] + extra
+        if fixed_calls is not None: allcalls = list(fixed_calls)
+        # reporting.u_component(target, influence) for the influences AS THE USER HOLDS THEM (uncertain reals, the uncertain
+        # complex numbers themselves, parts of complex numbers, constants, intermediates, y itself): pure, evaluated first
+        ucalls = []; uinfo = []
+        cands = [(v, ns[v]) for v in m['pool']] + [(v + part, getattr(ns[v], part[1:])) for v in m['cplx'] for part in ('.real', '.imag')]
+        utargets = [('y', y)] + ([('y.real', y.real), ('y.imag', y.imag)] if ycomplex else []) + [(tn, ns[tn]) for tn in extra_targets]
+        for tn, t in utargets:
+            if not isinstance(t, (lib.UncertainReal, lib.UncertainComplex)): continue
+            sel = cands if len(cands) <= 7 else rng.sample(cands, 7)
+            for iname, io in sel + [('y', y)]:
+                r = observe_ucomp(t, io)
+                exp = '(Ok %s)' % clist([cf(v) for v in r[1]]) if r[0] == 'ok' else '(Err %s)' % cexn(r[1])
+                ucalls.append('(<<%s>>, %s, %s)' % (tn, snap.infl(io), exp)); uinfo.append((tn, iname, r))
         # influences: evaluate the expressions and take their snapshots before any report
         prepared = []
         for t, fn, kw in allcalls:
@@ -399,7 +427,7 @@ def case_term(m, calls, rng=None):
             r = observe(ns, fn, kw, t)
             obs.append(r)
             exp = ('(Ok %s)' % crows(r[1], fn == 'budget')) if r[0] == 'ok' else '(Err %s)' % cexn(r[1])
-            ctxt.append('(%s, %s, %s, %s)' % (tsnap[t], cbool(fn == 'budget'), copts(itxt, kw), exp))
+            ctxt.append('(<<%s>>, %s, %s, %s)' % (t, cbool(fn == 'budget'), copts(itxt, kw), exp))
             for name, o in watched:
                 d = dump_ureal(o)
                 if d != base[name]:
@@ -409,7 +437,14 @@ def case_term(m, calls, rng=None):
     st, ncx = snap.state()
     tbl = oracle_table(rec.log)
     run = [(t, fn, {k: v for k, v in kw.items() if k != 'influences_obj'}) for t, fn, kw, _ in prepared]
-    return '(let NN := FNum %s in run_case17 NN (%s) %s %s %s)' % (tbl, st, ncx, clist(decls), clist(ctxt)), obs, run, changes, len(watched)
+    run_info = {'ucalls': uinfo, 'ycomplex': ycomplex}
+    # the targets are bound once (let) and referred to by name in every call
+    names = {t: 'tg%d' % i for i, t in enumerate(sorted(tsnap))}
+    lets = ''.join('let %s := %s in ' % (names[t], tsnap[t]) for t in sorted(tsnap))
+    body = '(let NN := FNum %s in %srun_case17u NN (%s) %s %s %s %s)' % (tbl, lets, st, ncx, clist(decls), clist(ucalls), clist(ctxt))
+    for t in tsnap: body = body.replace('<<%s>>' % t, names[t])
+    return (body,
+            obs, run, changes, len(watched), run_info)
 
 def classify(m, ns):
     from GTC import lib
@@ -418,7 +453,7 @@ def classify(m, ns):
             'partial': bool(m['partial']), 'n_inputs': len(m['reals']) + len(m['cplx']), 'results': len(m['results'])}
 
 def correspondence(rng, tier):
-    nmodels = 220 if tier == 'quick' else 4000
+    nmodels = 160 if tier == 'quick' else 3000
     ncalls = 14
     terms = []; meta = []
     dist = {'y_real': 0, 'y_complex': 0, 'partial_complex_use': 0, 'with_intermediates': 0, 'calls_budget': 0, 'calls_components': 0,
@@ -431,17 +466,18 @@ def correspondence(rng, tier):
         m = gen_model(rng)
         calls = gen_calls(rng, m, ncalls)
         try:
-            term, obs, run, changes, nwatched = case_term(m, calls, rng)
+            term, obs, run, changes, nwatched, info = case_term(m, calls, rng)
         except Exception as ex:
             dist['gen_failed'] += 1
             continue
-        terms.append(term); meta.append((m, run, obs))
+        terms.append(term); meta.append((m, run, obs, info))
+        dist['u_component_calls'] = dist.get('u_component_calls', 0) + len(info['ucalls'])
         for ch in changes[:3]:
             mismatches.append(dict(ch, kind='report-call-changed-component-vectors', python=m['src'],
                                    sequence=[call_src(fn, kw, t) for t, fn, kw in run]))
         dist['sequence_calls_on_parts'] += sum(1 for t, _, _ in run if t != 'y')
         dist['vector_dumps_compared'] += len(run) * nwatched
-        dist['y_complex' if '(@YComplex' in term else 'y_real'] += 1
+        dist['y_complex' if info['ycomplex'] else 'y_real'] += 1
         if m['partial']: dist['partial_complex_use'] += 1
         if m['results']: dist['with_intermediates'] += 1
         for (t, fn, kw), r in zip(run, obs):
@@ -461,7 +497,12 @@ def correspondence(rng, tier):
         mismatches.append({'kind': 'coq-file-failed', 'detail': e})
     for i, v in enumerate(values):
         if v is None or v == -1: continue
-        m, run, obs = meta[i]
+        m, run, obs, info = meta[i]
+        if 80000000 <= v < 90000000:
+            tn, iname, r = info['ucalls'][v - 80000000]
+            mismatches.append({'kind': 'u_component-model-vs-implementation', 'python': m['src'], 'call': 'reporting.u_component(%s, %s)' % (tn, iname),
+                               'implementation': repr(r)[:300]})
+            continue
         if v >= 90000000:
             mismatches.append({'kind': 'declared-number-vectors-differ-from-model', 'python': m['src'], 'declared_part_index': v - 90000000,
                                'meaning': 'the component vectors of a declared number are not what Kernel.elementary / Budget.decl_ok give: '
@@ -474,15 +515,134 @@ def correspondence(rng, tier):
                            'sequence_before': [call_src(f2, k2, t2) for t2, f2, k2 in run[:ci]][-6:],
                            'implementation': repr(obs[ci])[:600] if ci < len(obs) else None,
                            'code': code, 'meaning': 'first differing row index (>=1000: lengths differ); -2 one side raised; -3 different exceptions'})
-    return {'programs': len(terms), 'steps': sum(len(c) for _, c, _ in meta), 'mismatches': mismatches, 'distinct': len(distinct),
+    res = {'programs': len(terms), 'steps': sum(len(c) + len(i['ucalls']) for _, c, _, i in meta), 'mismatches': mismatches, 'distinct': len(distinct),
             'distribution': dist, 'samples': samples,
             'rule': 'random models (1-6 declarations of independent/dependent/ensemble reals, independent/correlated/ensemble complex, constants, '
                     'in random creation order; real or complex y; optional partial use z.real/z.imag; 0-3 declared intermediates) x 14 calls of '
                     'budget/components over the option grid (default/intermediate/influences incl. malformed, trim, max_number, key, reverse), '
+                    'reporting.u_component(target, influence) for influences as the user holds them (reals, complex numbers themselves, their '
+                    'parts, constants, intermediates) against Budget.u_component_any; '
                     'followed for a complex y by real reports of y.real, y.imag and magnitude(y) (evaluated after the complex reports) and the '
                     'complex reports again -- one SEQUENCE on the same objects; the model works on snapshots taken before the first call; after '
                     'every call the value and the three component vectors of y, its parts, magnitude(y) and every declared input/intermediate '
                     'are dumped bit-exactly and must be unchanged; every returned row (label, u by bits, uid) or exception class compared with the FNum model; non-trivial = a call returning >= 2 rows'}
+    tr = budget_transparency_correspondence(rng, 'quick' if tier == 'quick' else 'mid', 'C17t')
+    return add_to(res, tr, 'result_transparency', tr['rule'])
+
+# ------------------------------------------------------------------ result() is transparent for the reports (C06 / C17)
+T_BUDGET_KW = [{'intermediate': 'True'}, {'intermediate': 'True', 'trim': '0'}, {'intermediate': 'True', 'trim': '0.5'},
+               {'intermediate': 'True', 'max_number': '1'}, {'intermediate': 'True', 'max_number': '2', 'reverse': 'False'},
+               {'intermediate': 'True', 'reverse': 'False'}, {'intermediate': 'True', 'key': "'label'"}, {'intermediate': 'True', 'key': 'None'},
+               {'intermediate': 'True', 'trim': '0.05', 'key': "'u'"}, {}, {'trim': '0'}, {'trim': '0.5', 'max_number': '2'}]
+T_COMP_KW = [{'intermediate': 'True'}, {'intermediate': 'True', 'trim': '0'}, {'intermediate': 'True', 'trim': '0.3'},
+             {'intermediate': 'True', 'max_number': '2'}, {}, {'trim': '0'}]
+
+def gen_transparency_model(rng):
+    """w = a sum dominated by a few inputs plus SMALL declared intermediates (components far below 1 % of u(w), between 1 % and
+    100 %, and comparable); yw = result(w): the same number, declared.  Real (70 %) or complex w."""
+    src = []; reals = []; cplx = []; results = []
+    n = rng.randint(2, 4)
+    for i in range(n):
+        v = 'x%d' % (i + 1)
+        u = rng.choice([1.0, 0.5, 2.0, 1.0, 0.02, 1e-3])
+        kind = rng.random()
+        if kind < 0.6: src.append('%s = ureal(%r, %r, label=%s)' % (v, round(rng.uniform(-3, 3), 3) or 1.0, u, rng.choice(["'%s'" % v, 'None'])))
+        elif kind < 0.8: src.append('%s = ureal(%r, %r, independent=False)' % (v, round(rng.uniform(-3, 3), 3) or 1.0, u))
+        else: src.append('%s = ureal(%r, %r, df=%s)' % (v, round(rng.uniform(-3, 3), 3) or 1.0, u, rng.choice(['5', '8.5'])))
+        reals.append(v)
+    wcomplex = rng.random() < 0.3
+    if wcomplex or rng.random() < 0.3:
+        src.append('z1 = ucomplex(%r, %s, label=%s)' % (complex(round(rng.uniform(-2, 2), 2), round(rng.uniform(-2, 2), 2)),
+                                                      rng.choice(['0.5', '(1.0, 0.25)', '(0.01, 0.0)']), rng.choice(["'z'", 'None'])))
+        cplx.append('z1')
+    k = rng.randint(1, 4)
+    for j in range(k):
+        v = 'r%d' % (j + 1)
+        coef = rng.choice([1e-3, 1e-4, 0.004, 0.05, 0.3, 1.0])       # small, medium, comparable contributions
+        a, b = rng.choice(reals), rng.choice(reals)
+        e = rng.choice(['%r*%s' % (coef, a), '%r*%s*%s' % (coef, a, b), '%r*(%s - %s)' % (coef, a, b), '%r*sin(%s)' % (coef, a)])
+        if cplx and rng.random() < 0.3:
+            e = rng.choice(['%r*z1' % coef, '%r*magnitude(z1)' % coef, '%r*z1*%s' % (coef, a)])
+        src.append('%s = result(%s%s)' % (v, e, rng.choice(['', ", label='m%d'" % j, ", label='%s'" % rng.choice(LABELS)])))
+        results.append(v)
+    terms = ['%r*%s' % (rng.choice([1.0, 2.0, -1.0, 3.0]), rng.choice(reals)) for _ in range(rng.randint(1, 2))]
+    for v in results:
+        terms.append(rng.choice(['%s', '%s', '2.0*%s', '%s*%s']).replace('%s', v) if not wcomplex else rng.choice(['%s*(1+2j)', '%s*1j', '(%s+0j)', '%s']) % v)
+    if wcomplex: terms.append(rng.choice(['z1', '2.0*z1', 'z1*%s' % rng.choice(reals)]))
+    rng.shuffle(terms)
+    src.append('w = ' + ' + '.join(terms))
+    if not wcomplex: src.append('w = magnitude(w) if not hasattr(w, "_node") else w')
+    src.append('yw = result(w%s)' % rng.choice(['', ", label='Y'", ", label='yw'"]))
+    src.append('y = yw')
+    return {'src': src, 'pool': reals + cplx + results, 'reals': reals, 'cplx': cplx, 'consts': [], 'results': results, 'used': [], 'partial': []}
+
+def budget_transparency_correspondence(rng, tier, name):
+    """C06 for the reports of C17: every budget / components of result(w) equals the one of w -- default listing, influences,
+    and intermediate=True (where y's own node is left out BEFORE trim / sort / max_number), with default trim and explicit
+    trim / max_number / key / reverse, for w whose own uncertainty dominates small declared intermediates.  Checked twice:
+    (a) implementation differential w vs result(w); (b) both against the Coq model Budget.v (FNum), row by row."""
+    nmodels = {'quick': 40, 'mid': 300}.get(tier, 1000)
+    terms = []; meta = []; mismatches = []
+    dist = {'w_real': 0, 'w_complex': 0, 'calls': 0, 'intermediate_calls_default_trim': 0, 'rows_trimmed_away_by_default_trim': 0, 'gen_failed': 0}
+    tries = 0
+    while len(terms) < nmodels and tries < nmodels * 3:
+        tries += 1
+        m = gen_transparency_model(rng)
+        fixed = []
+        for kw in T_BUDGET_KW: fixed += [('w', 'budget', dict(kw)), ('y', 'budget', dict(kw))]
+        for kw in T_COMP_KW: fixed += [('w', 'components', dict(kw)), ('y', 'components', dict(kw))]
+        if rng.random() < 0.5:
+            infl = '[' + ', '.join(rng.sample(m['pool'], min(len(m['pool']), 3))) + ']'
+            fixed += [('w', 'budget', {'influences': infl}), ('y', 'budget', {'influences': infl})]
+        try:
+            term, obs, run, changes, nwatched, info = case_term(m, [], rng, extra_targets=('w',), fixed_calls=fixed)
+        except Exception:
+            dist['gen_failed'] += 1; continue
+        terms.append(term); meta.append((m, run, obs, info))
+        dist['w_complex' if info['ycomplex'] else 'w_real'] += 1
+        dist['calls'] += len(run)
+        for ch in changes[:2]:
+            mismatches.append(dict(ch, kind='report-call-changed-component-vectors', python=m['src']))
+        # (a) differential: the report about result(w) is the report about w
+        for i in range(0, len(run) - 1, 2):
+            (tw, fn, kw), (ty, _, _) = run[i], run[i + 1]
+            rw, ry = obs[i], obs[i + 1]
+            cw = [(r.uid, r.u, getattr(r, 'label', None)) for r in rw[1]] if rw[0] == 'ok' else rw
+            cy = [(r.uid, r.u, getattr(r, 'label', None)) for r in ry[1]] if ry[0] == 'ok' else ry
+            if kw.get('intermediate') and 'trim' not in kw:
+                dist['intermediate_calls_default_trim'] += 1
+                full = obs[i + 2] if i + 2 < len(obs) and run[i + 2][2].get('trim') == '0' and run[i + 2][2].get('intermediate') else None
+                if rw[0] == 'ok' and full and full[0] == 'ok' and len(kw) == 1:
+                    dist['rows_trimmed_away_by_default_trim'] += len(full[1]) - len(rw[1])
+            if cw != cy:
+                mismatches.append({'kind': 'result-not-transparent-for-report', 'python': m['src'], 'call_on_w': call_src(fn, kw, 'w'),
+                                   'call_on_result_w': call_src(fn, kw, 'yw'), 'w': repr(cw)[:500], 'result(w)': repr(cy)[:500]})
+    values, errors = coq_eval_cases(name, HEADER, terms, per_file=20)
+    for e in errors: mismatches.append({'kind': 'coq-file-failed', 'detail': e})
+    for i, v in enumerate(values):
+        if v is None or v == -1: continue
+        m, run, obs, info = meta[i]
+        if v >= 80000000:
+            mismatches.append({'kind': 'declared-number-or-u_component-differs-from-model', 'python': m['src'], 'code': v}); continue
+        ci = v // 10000
+        t, fn, kw = run[ci] if ci < len(run) else ('y', '?', {})
+        mismatches.append({'kind': 'budget-model-vs-implementation', 'python': m['src'], 'call': call_src(fn, kw, 'yw' if t == 'y' else t),
+                           'implementation': repr(obs[ci])[:500] if ci < len(obs) else None, 'code': v % 10000 - 10})
+    return {'programs': len(terms), 'steps': dist['calls'], 'mismatches': mismatches, 'distinct': len(terms), 'distribution': dist,
+            'samples': [{'python': meta[0][0]['src']}] if meta else [],
+            'rule': 'models w = dominant inputs + declared intermediates whose components are far below / around / comparable to 1 %% of u(w), '
+                    'yw = result(w); %d budget and %d components option sets (intermediate=True with default and explicit trim, max_number, '
+                    'key, reverse; default; influences) on w and on yw: rows must be identical (differential) and equal to the Coq model Budget.v'
+                    % (len(T_BUDGET_KW), len(T_COMP_KW))}
+
+def add_to(r, f, tag, text):
+    """merge an extra correspondence dict f into r"""
+    r['mismatches'] = r.get('mismatches', []) + f.get('mismatches', [])
+    r['programs'] = r.get('programs', 0) + f.get('programs', 0); r['steps'] = r.get('steps', 0) + f.get('steps', 0)
+    r['distinct'] = r.get('distinct', 0) + f.get('distinct', 0)
+    r.setdefault('distribution', {})[tag] = f.get('distribution', f.get('programs', 0))
+    r['rule'] = r.get('rule', '') + '; plus ' + tag + ': ' + text
+    return r
 
 # ------------------------------------------------------------------ property oracle (search only)
 def u_bar_exact(c):
@@ -579,6 +739,18 @@ def spec_check_single(m, ns):
                        # -- so that any OTHER deviation is still reported
     ideal = {}         # what the property text asks for; accepted as well (a repaired tree is not a failing input)
     cls = set()        # known-finding classes whose effect on this model cannot be predicted (-> skipped)
+    # u_component(y, influence) for the influence as a whole agrees with the components for its parts
+    for v in m['reals'] + m['cplx']:
+        o = ns[v]
+        if not getattr(o, 'is_elementary', False): continue
+        c = rp.u_component(y, o)
+        oparts = (o.real, o.imag) if isinstance(o, lib.UncertainComplex) else (o,)
+        byparts = [rp.u_component(p, q) for p in parts for q in oparts]
+        if yc and len(oparts) == 1: byparts = [byparts[0], 0.0, byparts[1], 0.0]
+        if not yc and len(oparts) == 2: byparts = byparts + [0.0, 0.0]
+        whole = [c] if isinstance(c, (int, float)) else list(c)
+        if [float(a) for a in whole] != [float(b) for b in byparts]:
+            return {'class': [], 'what': 'u_component(y, %s) = %r but the components of uncertainty of the parts are %r' % (v, whole, byparts)}
     for v in m['reals']:
         x = ns[v]
         if not x.is_elementary or not present(x): continue
@@ -596,8 +768,13 @@ def spec_check_single(m, ns):
         c = rp.u_component(y, z)
         ideal[z.uid] = u_bar_exact(c)
         if not yc:
-            if pr: expected[z.real.uid] = abs(rp.u_component(y, z.real))
-            if pi: expected[z.imag.uid] = abs(rp.u_component(y, z.imag))
+            # known finding C17-real-two-rows, stated precisely: a real y lists the complex influence z as one row per
+            # component that occurs, with the uid of z.real / z.imag and u = |u_component(y, z)[0]| / |u_component(y, z)[1]|
+            # -- u_component of z AS THE USER HOLDS IT -- and u_component(y, z)[2] = [3] = 0
+            if c[2] != 0 or c[3] != 0:
+                return {'class': [], 'what': 'u_component(y, %s) of a real y has non-zero imaginary-part entries: %r' % (v, tuple(c))}
+            if pr: expected[z.real.uid] = abs(c[0])
+            if pi: expected[z.imag.uid] = abs(c[1])
             continue
         expected[z.uid] = u_bar_exact(c)
         if not (pr and pi): cls.add('complex-partial-use')
@@ -714,16 +891,30 @@ def is_known(f):
     c = set(f.get('class') or [])
     return bool(c) and c <= KNOWN_CLASSES
 
+def transparency_check(m, ns):
+    """every report about result(w) equals the report about w"""
+    from GTC import reporting as rp
+    w, yw = ns['w'], ns['yw']
+    for fn in ('budget', 'components'):
+        for kw in (T_BUDGET_KW if fn == 'budget' else T_COMP_KW):
+            a = observe(ns, fn, dict(kw), 'w'); b = observe(ns, fn, dict(kw), 'yw')
+            ca = [(r.uid, r.u) for r in a[1]] if a[0] == 'ok' else a
+            cb = [(r.uid, r.u) for r in b[1]] if b[0] == 'ok' else b
+            if ca != cb:
+                return {'class': [], 'what': '%s differs from %s: %r vs %r' % (call_src(fn, kw, 'result(w)'), call_src(fn, kw, 'w'), cb, ca)}
+    return None
+
 def search(rng, tier, broken):
     n = 400 if tier == 'quick' else 6000
     for i in range(n):
-        m = gen_model(rng)
+        transp = (i % 5 == 4)
+        m = gen_transparency_model(rng) if transp else gen_model(rng)
         try:
             ns = run_src(m['src'])
         except Exception:
             continue
         try:
-            r = spec_check(m, ns)
+            r = transparency_check(m, ns) if transp else spec_check(m, ns)
         except Exception as ex:
             r = {'class': [], 'what': 'oracle raised %r' % ex}
         if r is not None and not is_known(r):
@@ -775,7 +966,7 @@ def replay(payload):
     if f and 'python' in f and 'model' in f:
         m = dict(f['model']); m['src'] = f['python']
         ns = run_src(m['src'])
-        r = spec_check(m, ns)
+        r = transparency_check(m, ns) if 'yw' in ns and 'w' in ns else spec_check(m, ns)
         if r and is_known(r):
             print('replayed on the implementation: passes now (only the known finding %s remains)' % ', '.join(r['class']))
             return 0
